@@ -27,6 +27,14 @@ def cases_for(ctx):
     for p, f in sel:
         out.append({"name": "%s[%s]" % (p, "+".join(f)), "parrot": p, "flags": f, "from": 2 if (p in seen and "psk" not in f) else 1})
         seen.add(p)
+    for c in out:
+        if (c["parrot"], c["flags"]) in (("Chrome-58", ["v12", "mtls"]), ("Firefox-120", ["v12"]), ("iOS-14", [])):
+            c["recs"] = True   # raw records in place of the client's Finished record (TLS 1.2) / after the handshake
+    # the same raw records under every TLS <= 1.2 cipher suite class (AEAD with explicit nonce, AEAD without, CBC, 3DES)
+    suites = ["c02f", "cca8", "c013", "000a"] if ctx.quick else ["c02f", "c030", "cca8", "c013", "009c", "002f", "000a"]
+    for p in (["Chrome-58"] if ctx.quick else ["Chrome-58", "Firefox-120", "iOS-14"]):
+        for cs in suites:
+            out.append({"name": "%s[v12+cs=%s]" % (p, cs), "parrot": p, "flags": ["v12", "cs=" + cs], "from": 99, "recs": True})
     return out
 
 
@@ -35,6 +43,7 @@ def run(ctx):
     return "exploration", cov, [
         "only STRUCTURED hostile input is explored: one grammar-node mutation or one inserted message per connection, derived from the captured flights of real parrots; arbitrary byte streams, raw records and coverage-guided fuzzing are not covered by this technique family",
         "a mutated ClientHello is the captured hello of the parrot (sent in place of the live one, because shuffling parrots change layout per connection); later client messages are mutated live with consistent transcripts",
+        "raw records: content types {0,20,21,22,23,24,255} x body 0..20 bytes sent by the client in place of its Finished record after ChangeCipherSpec (TLS 1.2, one case per cipher suite class: AES-GCM, ChaCha20-Poly1305, AES-CBC, 3DES) and right after the completed handshake (TLS 1.2 and 1.3)",
         "uTLS never sends a client CompressedCertificate; that kind (and client EncryptedExtensions where not negotiated) reaches the server only through the insert operator, at every server state",
         "deadline verdicts: transport deadline %d ms, tolerance 1000 ms, watchdog 3 s later; allocation verdicts as in C33" % cov["deadline_ms"],
         "TLC, the Go toolchain and the hooks' faithful placement are trusted",
